@@ -1131,16 +1131,34 @@ func c13Probe(r *core.Report) {
 				arg := ast.Unparen(c.Args[1])
 				id, isID := arg.(*ast.Ident)
 				copied := false
+				predicate := ""
 				if isID && info.ObjectOf(id) != valuePrm {
 					for _, a := range ff.Assigns(info.ObjectOf(id)) {
 						if ce, ok := ast.Unparen(a.Rhs).(*ast.CallExpr); ok && a.Rhs != nil {
 							if g := core.CalleeOf(info, ce); g != nil && g.Name() == "Copy" {
 								copied = true
+								// the copy is made whenever defaults may be set, not when some predicate over
+								// the sub-schema says it declares any (such predicates miss places)
+								for _, at := range core.Atoms(core.GuardsAt(info, fd.Body, a.Stmt)) {
+									ast.Inspect(at.Expr, func(m ast.Node) bool {
+										if cc, ok := m.(*ast.CallExpr); ok {
+											if fid, ok := ast.Unparen(cc.Fun).(*ast.Ident); ok && fid.Name == "len" {
+												return true
+											}
+											if predicate == "" {
+												predicate = core.ExprStr(at.Expr)
+											}
+										}
+										return true
+									})
+								}
 							}
 						}
 					}
 				}
-				if copied {
+				if copied && predicate != "" {
+					r.Bad(key, p.Pos(c.Pos()), fmt.Sprintf("%s copies the value before probing a sub-schema only when `%s` holds: where that predicate is false for a sub-schema that does set a default somewhere it does not look (below array items, below additionalProperties), the sub-schema is probed with the value itself and its defaults stay in the forwarded request although it did not match", fn, predicate))
+				} else if copied {
 					r.OK(key, p.Pos(c.Pos()), "the sub-schema is probed with a copy when defaults may be set")
 				} else {
 					r.Bad(key, p.Pos(c.Pos()), fmt.Sprintf("%s probes a sub-schema with %s, the value itself: when defaults are being set, a schema that turns out not to apply (the `not` schema of a valid value, a non-matching alternative) leaves its defaults in the request that is forwarded", fn, core.ExprStr(arg)))
